@@ -18,7 +18,7 @@ DESIGN_REF = "DESIGN.md section 7 (C17)"
 RULE = (
     "Exhaustive: every ordered rooted tree with 1..6 (quick) / 1..7 (thorough) nodes; for all node pairs: LCA == first common node of the two "
     "root paths, is_ancestor_of, is_strict_ancestor_of, is_comparable, distance; level for every node; for all triples: LCA of three == deepest "
-    "common ancestor.  Range-minimum: all arrays over {0,1,2} of length 1..8 / 1..9, all (start, stop) with 0 <= start, stop <= len (empty ranges "
+    "common ancestor; a second query structure built for each subtree below the root (same node objects) answers for that subtree and leaves the first one intact.  Range-minimum: all arrays over {0,1,2} of length 1..8 / 1..9, all (start, stop) with 0 <= start, stop <= len (empty ranges "
     "give None).  Random: trees up to 40 nodes with random arities (queries on 30 drawn tuples of 1-4 nodes), arrays up to 60 elements.  "
     "Non-trivial: tree with >=2 internal nodes / array of length >=2; distinct by SHA-1 of the shape/array."
 )
@@ -168,6 +168,30 @@ def check(case):
             if len(q) >= 2:
                 pair(q[0], q[1])
             evals += 1
+    # several query structures over the same node objects: one per subtree hanging below the root,
+    # built after the full-tree structure; every structure must answer for its own tree
+    kids = [i for i in range(n) if parent[i] == 0]
+    if not case.get("_exh"):
+        kids = kids[:1]
+    for k in kids:
+        sub = LowestCommonAncestor(nodes[k])
+        members = [i for i in range(n) if k in chains[i]]
+        sub_chain = {i: chains[i][: chains[i].index(k) + 1] for i in members}
+        for a in members:
+            if sub.level(nodes[a]) != len(sub_chain[a]) - 1:
+                raise Violation("lca.subtree-instance.level", observed=sub.level(nodes[a]), expected=len(sub_chain[a]) - 1)
+            for b in members:
+                exp = next(x for x in sub_chain[a] if x in sub_chain[b])
+                if sub(nodes[a], nodes[b]) is not nodes[exp]:
+                    raise Violation("lca.subtree-instance.pair", observed="other node", expected=exp, extra={"a": a, "b": b, "subtree": k})
+                if sub.distance(nodes[a], nodes[b]) != sub_chain[a].index(exp) + sub_chain[b].index(exp):
+                    raise Violation("lca.subtree-instance.distance", observed=sub.distance(nodes[a], nodes[b]),
+                                    expected=sub_chain[a].index(exp) + sub_chain[b].index(exp))
+                evals += 1
+        # the first structure still answers for the whole tree
+        for a in members[:3]:
+            if lca.level(nodes[a]) != len(chains[a]) - 1 or lca(nodes[a], nodes[0]) is not nodes[0]:
+                raise Violation("lca.first-instance-disturbed", observed=lca.level(nodes[a]), expected=len(chains[a]) - 1)
     internal = sum(1 for i in range(n) if any(parent[j] == i for j in range(n)))
     return Result(internal >= 2, [f"nodes={min(n, 10)}{'+' if n >= 10 else ''}", "tree"], evals=max(1, evals))
 
